@@ -233,6 +233,12 @@ class Ref:
                 r *= v
             return r
         if h in ('=', '<', '>'):
+            if h == '=' and len(e) > 3:
+                # every operand is evaluated, left to right, whatever the earlier ones were
+                vs = [self.ev(x, env) for x in e[1:]]
+                if any(isinstance(v, Closure) for v in vs):
+                    raise RefError('closure eq')
+                return all(v == vs[0] and isinstance(v, Sym) == isinstance(vs[0], Sym) for v in vs[1:])
             a, b = self.ev(e[1], env), self.ev(e[2], env)
             if h == '=':
                 if isinstance(a, Closure) or isinstance(b, Closure):
@@ -594,4 +600,8 @@ def discarded_value_programs():
         out.append(('call', ('fn', [A], [('do', S('y'), S(A))]), 1))
         out.append(('do', ('define', A, 1), ('if', 1, ('do', S('w'), 2), 3)))
         out.append(('do', ('define', A, 1), ('do', 7, "s", S(A), ('set', [(A, 2)]), S(A))))
+        # a comparison evaluates all its operands, also after the result is decided
+        out.append(('=', 1, 2, S('nosuch')))
+        out.append(('do', ('define', A, 0), ('=', 1, 2, ('set', [(A, 5)])), S(A)))
+        out.append(('do', ('define', A, 0), ('list', ('=', 1, 2, ('print', 7)), ('=', 3, 3, ('do', ('print', 8), 3)), S(A))))
     return out
